@@ -447,13 +447,13 @@ def oracle_lines(rng, tier, mode, for_search=False):
             elif b == 32 and not quick and rel:
                 out += [(l, key, c) for l, c in split("oi2f", CODE[f], fw, lo, total, 1, 32)]
             else:
-                n = (150000 if rel else 40000) if quick else (1 << 26 if rel else 1 << 22)
+                n = (2000000 if rel else 300000) if quick else (1 << 26 if rel else 1 << 22)
                 out.append((f"ri2f {CODE[f]} {fw} {rng.range(1, 1 << 62)} {n}", key, n))
-                cnt = 40000 if quick else 1 << 22
+                cnt = 1000000 if quick else 1 << 22
                 step = (total // cnt) | 1
                 out += [(l, key, c) for l, c in split("oi2f", CODE[f], fw, lo, total // step, step, 1 if quick else 4)]
             key = ("f2i", f, fw)
-            n = (150000 if rel else 40000) if quick else (1 << 26 if rel else 1 << 22)
+            n = (2000000 if rel else 300000) if quick else (1 << 26 if rel else 1 << 22)
             out.append((f"rf2i {fw} {CODE[f]} {rng.range(1, 1 << 62)} {n}", key, n))
             if fw == 32:
                 for (lo32, cnt32) in DOM32:
@@ -461,12 +461,12 @@ def oracle_lines(rng, tier, mode, for_search=False):
                         # EVERY f32 bit pattern of the documented domain, every target format
                         out += [(l, key, c) for l, c in split("of2i", 32, CODE[f], lo32, cnt32, 1, 32)]
                     else:
-                        step = 4099 if quick else 61
+                        step = 251 if quick else 61
                         out += [(l, key, c) for l, c in split("of2i", 32, CODE[f], lo32 + rng.below(step), (cnt32 - step) // step, step, 1 if quick else 4)]
             else:
                 # f64: strided over the bit patterns of the domain + around every exponent
                 span = 0x3FF0000000000000
-                cnt = 60000 if quick else 1 << 23
+                cnt = 1000000 if quick else 1 << 23
                 step = (span // cnt) | 1
                 for base in (0, 1 << 63):
                     out += [(l, key, c) for l, c in split("of2i", 64, CODE[f], base + rng.below(step), span // step - 1, step, 1 if quick else 4)]
@@ -487,10 +487,10 @@ def oracle_lines(rng, tier, mode, for_search=False):
             if not quick and rel:
                 out += [(l, key, c) for l, c in split("of2f", 32, 0, 0, 1 << 32, 1, 32)]
             else:
-                step = 1021 if quick else 61
+                step = 61 if quick else 7
                 out += [(l, key, c) for l, c in split("of2f", 32, 0, rng.below(step), ((1 << 32) - step) // step, step, 4)]
         else:
-            n = (400000 if rel else 100000) if quick else (1 << 27 if rel else 1 << 23)
+            n = (8000000 if rel else 1000000) if quick else (1 << 27 if rel else 1 << 23)
             for q in range(4):
                 out.append((f"rf2f 64 0 {rng.range(1, 1 << 62)} {n // 4}", key, n // 4))
     return out
